@@ -32,9 +32,9 @@ CASE_TIMEOUT = 900
 
 def bounds(tier):
     if tier == 'quick':
-        return {'max_levels': 3, 'max_leaves': 4, 'schemes': ['A', 'B'],
+        return {'max_levels': 3, 'max_leaves': 4, 'schemes': ['B', 'D'],
                 'n_cells': [1, 5], 'deviation_bound': 1}
-    return {'max_levels': 4, 'max_leaves': 5, 'schemes': ['A', 'B'],
+    return {'max_levels': 4, 'max_leaves': 5, 'schemes': ['A', 'B', 'D'],
             'n_cells': [1, 2, 3, 5], 'deviation_bound': 2}
 
 
@@ -101,7 +101,7 @@ def evaluate(case, scratch, want=('C01',), prop='C01', space_fn=None):
     sample = None
     if case.get('many_chunks'):
         space = []
-        for cs, npr in ((1, 2), (1, 3), (5, 2)):
+        for cs, npr in ((1, 1), (1, 3), (5, 1)):
             c0 = dict(scenario.DEFAULT_CFG, chunk_size=cs, n_processors=npr,
                       marker_mode='full', seam='cli')
             space.append((c0, ('chunk_size', 'n_processors')))
